@@ -94,6 +94,38 @@ def run(tier, seed):
         good = len(res) == 2 and res[0][0] == want and frag in res[0][1] and res[1] == ("ok", "I42")
         if not good:
             rep.violation(f"a command sent while the worker is blocked in {p} was not honoured (or the interpreter was not usable afterwards)", {"program": p + " (add 40 2)", "opts": o, "observed": a[:300]})
+    # (programs without traps, also none inside the macros they use: the let macro traps signals while it checks its bindings)
+    # every step is a stopping point: a command pending before poll k of a terminating evaluation with P polls
+    # (1 <= k <= P) must end THAT evaluation at step k - nothing later runs, the next form evaluates normally
+    every = ["((lambda (x) x) 5)", "(output-file '*stdout* ((lambda (x) x) \"hi\"))", "(if (car '(1)) ((lambda (y) (add y 1)) 2) 3)",
+             "(map (lambda (x) (add x 1)) '(1 2 3))", "(foldl (lambda (a b) (add a b)) 0 '(1 2 3 4))",
+             "((lambda (_ v) v) (output-file '*stdout* \"a\") ((lambda (_ v) v) (output-file '*stdout* \"b\") 'done))", "'quoted", "(quote (a b))",
+             "((lambda (f) (f 1)) (lambda (x) (lambda (y) x)))", "(block (output-file '*stdout* \"1\") (output-file '*stdout* \"2\") 3)"]
+    base = run_driver_cases(evalcorr.driver_lines(every, env="p"), timeout=20.0)
+    step_cases = []
+    for prog, a in zip(every, base):
+        r = dump.split_run_answer(a)
+        if "special" in r:
+            continue
+        total = int(r["stats"]["polls"])
+        for k in range(1, total + 1):
+            for cmd in ("INTERRUPT", "ABORT"):
+                step_cases.append((prog, k, cmd, total, r["out"]))
+    if tier == "quick":
+        step_cases = [c for i, c in enumerate(step_cases) if i % 2 == seed % 2 or c[1] >= c[3] - 3]
+    sa = run_driver_cases(evalcorr.driver_lines([{"text": c[0] + " (add 40 2)", "umb": [(c[1], c[2])], "cont": True} for c in step_cases], env="p"), timeout=20.0)
+    rep.evaluations += len(step_cases)
+    for (prog, k, cmd, total, out), a in zip(step_cases, sa):
+        r = dump.split_run_answer(a)
+        res = r.get("results") or []
+        want = "abort" if cmd == "ABORT" else "sig"
+        good = (len(res) == 2 and res[0][0] == want and (cmd == "ABORT" or "105.110.116.101.114.114.117.112.116.101.100" in res[0][1])
+                and res[1] == ("ok", "I42") and out.startswith(r.get("out", "")))
+        if not good:
+            rep.violation(f"{cmd} pending before step {k} of {total} of {prog} did not stop the evaluation at that step",
+                          {"program": prog + " (add 40 2)", "umb": [[k, cmd]], "cont": True, "env": "p", "observed": a[:300],
+                           "expected": f"first form ends with {'the abort' if cmd == 'ABORT' else 'the interrupted signal'}, second form gives 42"})
+    rep.coverage["every_step_probes"] = len(step_cases)
     if not rep.violations:
         report_disagreements(rep, sets, "poll discipline")
     rep.nontrivial = len(set((c["what"], c["cmd"], c["k"]) for c in cases))
